@@ -1,0 +1,6 @@
+//go:build verif
+
+package auth
+
+// VerifTwosComplement exposes twosComplement to the verification harness.
+func VerifTwosComplement(p []byte) []byte { return twosComplement(p) }
